@@ -35,6 +35,7 @@ type lrCase struct {
 	NoLibs  bool     `json:"nolibs"`
 	MaxEv   int      `json:"maxev"`
 	Alloc   bool     `json:"alloc"`      // measure heap allocation of the case
+	Heap    bool     `json:"heap"`       // sample the live Go heap while the case runs and report its peak over the baseline
 	Sandbox bool     `json:"sandbox"`    // run in a sentinel directory and report file-system changes
 	Helpers bool     `json:"helpers"`    // register the __flags helper
 	Gor     bool     `json:"gor"`        // report the number of goroutines left behind by the case
@@ -62,6 +63,7 @@ type lrOut struct {
 	FsCh    []string      `json:"fs_changes"`
 	DumpOK  *bool         `json:"dump_stable,omitempty"` // mode dump: dump(f) == dump(f) and dump(load(dump(f))) == dump(f)
 	Alloc   uint64        `json:"alloc_bytes,omitempty"` // Go heap bytes allocated while the case ran (MemStats.TotalAlloc delta)
+	HeapPk  uint64        `json:"heap_peak,omitempty"`   // peak of MemStats.HeapAlloc over the value before the case (sampled every 2 ms)
 	WallMs  int64         `json:"wall_ms,omitempty"`
 }
 
@@ -346,11 +348,39 @@ func luaRun(args []string) int {
 		if c.Alloc {
 			goruntime.ReadMemStats(&ms0)
 		}
+		var heapStop chan struct{}
+		var heapPeak chan uint64
+		if c.Heap {
+			goruntime.GC()
+			var b goruntime.MemStats
+			goruntime.ReadMemStats(&b)
+			heapStop, heapPeak = make(chan struct{}), make(chan uint64, 1)
+			go func(base uint64) {
+				var peak uint64
+				var m goruntime.MemStats
+				for {
+					goruntime.ReadMemStats(&m)
+					if m.HeapAlloc > base && m.HeapAlloc-base > peak {
+						peak = m.HeapAlloc - base
+					}
+					select {
+					case <-heapStop:
+						heapPeak <- peak
+						return
+					case <-time.After(2 * time.Millisecond):
+					}
+				}
+			}(b.HeapAlloc)
+		}
 		t0 := time.Now()
 		go func() { done <- runLuaCase(&c) }()
 		select {
 		case o := <-done:
 			o.WallMs = time.Since(t0).Milliseconds()
+			if c.Heap {
+				close(heapStop)
+				o.HeapPk = <-heapPeak
+			}
 			if c.Alloc {
 				var ms1 goruntime.MemStats
 				goruntime.ReadMemStats(&ms1)
